@@ -154,6 +154,8 @@ def shard_seed(seed, shard):
 def run_shard(args):
     pid, tier, seed, shard, nshards = args
     os.environ.setdefault('PYTHONHASHSEED', '0')
+    import warnings
+    warnings.simplefilter('ignore')
     t0 = time.time()
     res = {'shard': shard, 'evaluations': 0, 'status': {}, 'labels': {}, 'nt_hashes': [],
            'samples': [], 'failures': [], 'harness_errors': [], 'budget_hit': False,
@@ -224,6 +226,8 @@ def shrink_failure(args):
     """Re-run the shard that produced a failure and let Hypothesis shrink that bucket only."""
     pid, tier, seed, nshards, failure, budget_calls = args
     os.environ.setdefault('PYTHONHASHSEED', '0')
+    import warnings
+    warnings.simplefilter('ignore')
     from hypothesis import given, seed as hseed
     prop = load_prop(pid)
     if failure['index'] < 0:
